@@ -184,3 +184,38 @@ func (x *Exec) entryValueFacts(key, h, loc, owner, sort string) {
 		}
 	}
 }
+
+// resolveModTypes: the owner names a contract's "modifies types" clause denotes (type names are relative to the callee's package)
+func (x *Exec) resolveModTypes(ct *FnContract, callee *ssa.Function) []string {
+	var pkg *types.Package
+	if callee != nil {
+		f := callee
+		for f.Parent() != nil {
+			f = f.Parent()
+		}
+		if f.Pkg != nil {
+			pkg = f.Pkg.Pkg
+		} else if f.Object() != nil {
+			pkg = f.Object().Pkg()
+		}
+	}
+	sc := &Scope{x: x, pkg: pkg, vars: map[string]Val{}}
+	var out []string
+	for _, t := range ct.ModTypes {
+		if strings.HasPrefix(t, "raw:") {
+			out = append(out, t)
+			continue
+		}
+		func() {
+			defer func() {
+				if r := recover(); r != nil {
+					out = append(out, t)
+				}
+			}()
+			if ty, _ := sc.typeByName(t); ty != nil {
+				out = append(out, ownerName(ty))
+			}
+		}()
+	}
+	return out
+}
